@@ -26,6 +26,14 @@ const inlineMaxDepth = 4
 
 // ---------- ghost event log
 
+// setEventResult records the outcome of the most recent event (bytes transferred, error flag).
+func (tr *Tr) setEventResult(st *State, n *Term, errTid *Term) {
+	f := tr.f
+	i := f.ISub(tr.get(st, "ev.len"), f.IntC(1))
+	tr.set(st, "ev.res", f.Store(tr.get(st, "ev.res"), i, n))
+	tr.set(st, "ev.err", f.Store(tr.get(st, "ev.err"), i, f.Ite(f.Eq(errTid, f.BVi(64, 0)), f.BVi(64, 0), f.BVi(64, 1))))
+}
+
 func (tr *Tr) logEvent(st *State, kind int64, dev, off, n, buf, boff *Term) {
 	f := tr.f
 	i := tr.get(st, "ev.len")
@@ -45,13 +53,13 @@ func (tr *Tr) logEvent(st *State, kind int64, dev, off, n, buf, boff *Term) {
 func (tr *Tr) havocLog(st *State) {
 	f := tr.f
 	oldLen := tr.get(st, "ev.len")
-	newLen := f.Fresh("evlen", SInt)
-	tr.assume(f.ILe(oldLen, newLen), "event log only grows")
+	newLen := f.Fresh("evlen", GhostIdxSort())
+	tr.assume(f.And(f.ILe(oldLen, newLen), f.ILe(newLen, f.IntC(1<<60))), "event log only grows (fewer than 2^60 events)")
 	tr.set(st, "ev.len", newLen)
-	k := f.BoundVar("k", SInt)
+	k := f.BoundVar("k", GhostIdxSort())
 	var eqs []*Term
 	var pats [][]*Term
-	for _, name := range []string{"ev.kind", "ev.dev", "ev.off", "ev.n", "ev.boff", "ev.epoch", "ev.buf"} {
+	for _, name := range []string{"ev.kind", "ev.dev", "ev.off", "ev.n", "ev.boff", "ev.epoch", "ev.buf", "ev.res", "ev.err"} {
 		o := tr.get(st, name)
 		n := f.Fresh(sanitize(name), o.S)
 		tr.set(st, name, n)
@@ -59,6 +67,7 @@ func (tr *Tr) havocLog(st *State) {
 		pats = append(pats, []*Term{f.Select(n, k)})
 	}
 	tr.assume(f.Forall([]*Term{k}, f.Implies(f.And(f.ILe(f.IntC(0), k), f.ILt(k, oldLen)), f.And(eqs...)), pats...), "event log is append-only")
+	tr.set(st, "wcount", f.Fresh("wcount", ArrS(S64, S64)))
 	e := tr.get(st, "epoch")
 	ne := f.Fresh("epoch", S64)
 	tr.assume(f.ULe(e, ne), "sync epoch is monotone")
@@ -499,6 +508,7 @@ func (tr *Tr) invoke(fr *Frame, site ssa.Instruction, c *ssa.CallCommon, rt type
 		tr.havocRegionKeys(fr.st, p[0], []string{"8"})
 		nv, n, e := nerr(p, false)
 		tr.logEvent(fr.st, evIn, dev, z, n, nil, nil)
+		tr.setEventResult(fr.st, n, e[0])
 		tr.trust("io.Reader.Read: 0 <= n <= len(p), only p is written")
 		return append(nv, e...)
 	case name == "ReadAt" && len(c.Args) == 2 && byteSliceArg(0):
@@ -508,7 +518,7 @@ func (tr *Tr) invoke(fr *Frame, site ssa.Instruction, c *ssa.CallCommon, rt type
 		tr.setInner(fr.st, "8", p[0], newInner)
 		nv, n, e := nerr(p, true)
 		tr.logEvent(fr.st, evRead, dev, off, p[2], newInner, p[1])
-		_ = n
+		tr.setEventResult(fr.st, n, e[0])
 		tr.trust("io.ReaderAt.ReadAt: 0 <= n <= len(p), n < len(p) => err != nil, only p is written")
 		return append(nv, e...)
 	case name == "WriteAt" && len(c.Args) == 2 && byteSliceArg(0):
@@ -516,14 +526,18 @@ func (tr *Tr) invoke(fr *Frame, site ssa.Instruction, c *ssa.CallCommon, rt type
 		off := args[1][0]
 		tr.effect(fr, site, "devwrite")
 		tr.logEvent(fr.st, evWrite, dev, off, p[2], tr.inner(fr.st, "8", p[0]), p[1])
-		nv, _, e := nerr(p, true)
+		nv, n, e := nerr(p, true)
+		tr.setEventResult(fr.st, n, e[0])
 		tr.trust("io.WriterAt.WriteAt: 0 <= n <= len(p), n < len(p) => err != nil")
 		return append(nv, e...)
 	case name == "Write" && len(c.Args) == 1 && byteSliceArg(0) && sig.Results().Len() == 2:
 		p := args[0]
 		tr.effect(fr, site, "devwrite")
-		tr.logEvent(fr.st, evOut, dev, z, p[2], tr.inner(fr.st, "8", p[0]), p[1])
-		nv, _, e := nerr(p, true)
+		wc := tr.get(fr.st, "wcount")
+		tr.logEvent(fr.st, evOut, dev, f.Select(wc, dev), p[2], tr.inner(fr.st, "8", p[0]), p[1])
+		tr.set(fr.st, "wcount", f.Store(wc, dev, f.Add(f.Select(wc, dev), p[2])))
+		nv, n, e := nerr(p, true)
+		tr.setEventResult(fr.st, n, e[0])
 		tr.trust("io.Writer.Write: 0 <= n <= len(p), n < len(p) => err != nil")
 		return append(nv, e...)
 	case name == "Sync" && len(c.Args) == 0:
